@@ -117,6 +117,14 @@ def program(t, form):
         g = show(t, lambda i: f"E{i}()")
         return f"flow main\n  when {g}\n    send Marker()\n  match Done()\n"
     flows = "".join(f"flow f{i}\n  match E{i}()\n\n" for i in lv)
+    if form.startswith(("await_flows_instant:", "when_flows_instant:")):
+        # one member flow has no waiting statement: it has finished by the time the statement is in place
+        inst = int(form.split(":")[1])
+        flows = "".join((f"flow f{i}\n  send Tick{i}()\n\n" if i == inst else f"flow f{i}\n  match E{i}()\n\n") for i in lv)
+        g = show(t, lambda i: f"f{i}")
+        if form.startswith("await"):
+            return flows + f"flow main\n  await {g}\n  send Marker()\n  match Done()\n"
+        return flows + f"flow main\n  when {g}\n    send Marker()\n  match Done()\n"
     if form == "await_flows":
         g = show(t, lambda i: f"f{i}")
         return flows + f"flow main\n  await {g}\n  send Marker()\n  match Done()\n"
@@ -241,6 +249,8 @@ def explore(task):
         recv = set(prev.aux.get("recv", ()))
         dead = set(prev.aux.get("dead", ()))
         before = evaluate(t, recv)
+        if aev[0] == "start_main" and ":" in form and form.split(":")[0].endswith("_instant"):
+            recv.add(int(form.split(":")[1]))   # the member without a waiting statement finishes while the group is started
         if aev[0] == "ext" and aev[1].startswith("E"):
             i = int(aev[1][1:])
             if i not in dead:
@@ -263,8 +273,15 @@ def explore(task):
         if after and not before:
             ex.stats.bump("satisfaction_steps")
         if n_marker != expect:
+            sig_form = form
+            if ":" in form and form.split(":")[0].endswith("_instant"):
+                inst = int(form.split(":")[1])
+                late = expect == 1 and n_marker == 0 and inst != leaves(t)[-1]
+                # the member that finishes at once stands before other members: its Finished event comes before the
+                # statement listens for it (recorded finding); any other failure of the family keeps the member index
+                sig_form = form.split(":")[0] + (":finished-before-the-later-members-were-started" if late else f":{inst}")
             raise Violation(
-                f"group:{form}",
+                f"group:{sig_form}",
                 f"formula {show(t, str)} form={form}: received={sorted(recv)} "
                 f"expected {expect} marker(s) in this step, saw {n_marker}",
                 {"formula": show(t, lambda i: f'E{i}'), "received": sorted(recv)},
@@ -367,6 +384,14 @@ def tasks(tier):
                 # Finished event): same as the formula without repetition, already covered
                 continue
             out.append((t, f, 0))
+    # member flows without a waiting statement (every position of the instant member)
+    for t in formulas(3 if tier == "quick" else 4, with_repeats=False):
+        lv_ = sorted(set(leaves(t)))
+        if len(lv_) < 2:
+            continue
+        for inst in lv_:
+            out.append((t, f"await_flows_instant:{inst}", 0))
+            out.append((t, f"when_flows_instant:{inst}", 0))
     # three flows complete the same group statement on the same event (every position of the flow that ends)
     for t in formulas(2 if tier == "quick" else 3):
         for order in ("123", "213", "231"):
